@@ -9,15 +9,19 @@
 (* concern them.  TLC emits every history with its expected outcomes.                   *)
 EXTENDS Integers, Sequences, FiniteSets, TLC, Json
 CONSTANTS MaxLen,   \* longest history
-          MaxLate    \* at most this many late cancellations in one history
+          MaxLate,   \* at most this many late cancellations in one history
+          Family     \* "base": the seven kinds below; "import": invocations that import a module
+                     \* (normal, impok, imperr: the module body fails, impcancel: cancelled during the import)
 Apis == {"RunCode", "Call"}
 \* what the invocation does: finishes normally, raises a run-time error three calls deep, provokes a recovered Go
 \* panic at once or 600 script frames deep, recurses until the frame stack (overflow) or the operand stack (opoverflow)
 \* overflows, or is cancelled mid-run
-Kinds == {"normal", "error", "panic", "deeppanic", "overflow", "opoverflow", "cancelled"}
+Kinds == IF Family = "import" THEN {"normal", "impok", "imperr", "impcancel"}
+         ELSE {"normal", "error", "panic", "deeppanic", "overflow", "opoverflow", "cancelled"}
 \* the context the invocation runs under: cancellable, or context.Background() (no Done channel)
-CtxKinds(kind) == IF kind \in {"normal", "error"} THEN {"cancel", "background"} ELSE {"cancel"}
-Expected(kind) == CASE kind = "normal" -> "value" [] kind = "error" -> "index error" [] kind \in {"panic", "deeppanic"} -> "panic"
+CtxKinds(kind) == IF kind \in {"normal", "error", "impok", "imperr"} THEN {"cancel", "background"} ELSE {"cancel"}
+Expected(kind) == CASE kind \in {"normal", "impok"} -> "value" [] kind = "imperr" -> "anyerror" [] kind = "impcancel" -> "ctxerr"
+                    [] kind = "error" -> "index error" [] kind \in {"panic", "deeppanic"} -> "panic"
                     [] kind \in {"overflow", "opoverflow"} -> "anyerror" [] kind = "cancelled" -> "ctxerr"
 \* invocation i may cancel the context of any earlier invocation (the interesting ones: those that finished)
 Inv(i) == UNION {[api : Apis, kind : {k}, ctx : CtxKinds(k), late : SUBSET (1..(i - 1))] : k \in Kinds}
